@@ -901,3 +901,4 @@ Proof.
 Qed.
 
 Lemma ob_no_shared_pointee_writes_true : ob_no_shared_pointee_writes = true. Proof. vm_compute. reflexivity. Qed.
+Lemma ob_loggers_stateless_true : ob_loggers_stateless = true. Proof. vm_compute. reflexivity. Qed.
